@@ -1,0 +1,30 @@
+//go:build verif
+
+package fragswarm
+
+import (
+	"context"
+
+	"go.brendoncarroll.net/p2p"
+)
+
+// Verification hooks, compiled only with -tags verif.
+
+// VerifHandleTell feeds one inner datagram to the reassembly path synchronously.
+func VerifHandleTell[A p2p.Addr](ctx context.Context, s p2p.Swarm[A], m p2p.Message[A]) error {
+	return s.(*swarm[A]).handleTell(ctx, m)
+}
+
+// VerifNumAggregators reports how many partial messages are held.
+func VerifNumAggregators[A p2p.Addr](s p2p.Swarm[A]) int {
+	sw := s.(*swarm[A])
+	sw.mu.Lock()
+	defer sw.mu.Unlock()
+	return len(sw.aggs)
+}
+
+func VerifNewMessage(id uint32, part, total uint8, data []byte) p2p.IOVec {
+	return newMessage(id, part, total, data)
+}
+
+func VerifParseMessage(x []byte) (uint32, uint8, uint8, []byte, error) { return parseMessage(x) }
